@@ -154,7 +154,7 @@ class Verdict:
                 return
         rec = {"property": self.pid, "clause": clause, "signature": signature, "case": case,
                "replay_cmd": f"./check {self.pid} --replay <this file>"}
-        d = VERIF / "replays" / self.pid
+        d = (VERIF / "replays" if str(REPO) == "/repo" else WORK / "replays-scratch") / self.pid
         d.mkdir(parents=True, exist_ok=True)
         path = d / f"{sha(rec)}.json"
         path.write_text(json.dumps(rec, indent=1, default=str))
@@ -246,8 +246,9 @@ class Evidence:
         ev = {"property_id": self.pid, "tier": tier(), "seed": seed(), "level": self.level,
               "coverage": cov, "assumptions": self.assumptions,
               "wall_s": round(time.time() - self.t0, 2), "violations": len(verdict.violations)}
-        d = VERIF / "evidence"
-        d.mkdir(exist_ok=True)
+        # evidence/ describes /repo itself; a run against a scratch tree (EYECITE_REPO, self-tests) writes elsewhere
+        d = VERIF / "evidence" if str(REPO) == "/repo" else WORK / "evidence-scratch"
+        d.mkdir(parents=True, exist_ok=True)
         (d / f"{self.pid}.json").write_text(json.dumps(ev, indent=1, default=str))
 
 
